@@ -93,6 +93,9 @@ class Engine:
         s.fresh_n = 0
         s.pc = []
         s.opaque_terms = {}
+        s.overrides = {}
+        s.cur_model = None
+        s._last_model = None
         import models, models_pallas
         models.register(s)
         models_pallas.register(s)
@@ -187,6 +190,12 @@ class Engine:
         raise Unmodelled("impl %s for %s :: %s -> %d candidates" % (trait, self_ty, method, len(c)))
 
     # ------------------------------------------------------------------ search
+    def block_on(s, fut):
+        """drive a future (coroutine object of the dump, or a ready future) to completion"""
+        import models
+        r = s.models["Future::poll"](s, [Agg("Pin", None, 0, [ref_to_value(fut)]), Opaque("Context")], "block_on")
+        return models.deref(r).fields[0]
+
     def run(s, harness, max_paths=20000, time_limit=None):
         """depth-first exploration with re-execution from a recorded decision trail"""
         s.trail = []
@@ -194,6 +203,7 @@ class Engine:
         while True:
             s.pos = 0
             s.pc = []
+            s.cur_model = None
             s.solver.push()
             s.steps = 0
             try:
@@ -222,11 +232,26 @@ class Engine:
         s.stats.queries += 1
         if r == z3.unknown:
             raise Unmodelled("solver returned unknown")
+        if r == z3.sat:
+            s._last_model = s.solver.model()
         return r == z3.sat
 
-    def _add_pc(s, c):
+    def _add_pc(s, c, keeps_model=False):
         s.pc.append(c)
         s.solver.add(c)
+        if not keeps_model:
+            s.cur_model = None
+
+    def _model_says(s, cond):
+        """value of cond under the cached model of the current path condition (or None)"""
+        if s.cur_model is None:
+            return None
+        v = s.cur_model.eval(cond, model_completion=True)
+        if z3.is_true(v):
+            return True
+        if z3.is_false(v):
+            return False
+        return None
 
     def decide(s, cond):
         """branch on a (possibly symbolic) boolean; both sides explored when feasible"""
@@ -242,20 +267,34 @@ class Engine:
             s.pos += 1
             s._add_pc(cond if v else z3.Not(cond))
             return v
-        t_ok = s._sat(cond)
-        f_ok = s._sat(z3.Not(cond))
+        # a model of the current path condition decides one side for free
+        known = s._model_says(cond)
+        if known is None:
+            if not s._sat():
+                raise Infeasible()
+            s.cur_model = s._last_model
+            known = s._model_says(cond)
+        if known is None:
+            t_ok = s._sat(cond); tm = s._last_model if t_ok else None
+            f_ok = s._sat(z3.Not(cond)); fm = s._last_model if f_ok else None
+        elif known:
+            t_ok, tm = True, s.cur_model
+            f_ok = s._sat(z3.Not(cond)); fm = s._last_model if f_ok else None
+        else:
+            f_ok, fm = True, s.cur_model
+            t_ok = s._sat(cond); tm = s._last_model if t_ok else None
         s.stats.decisions += 1
         if t_ok and f_ok:
             s.trail.append((True, [False])); s.pos += 1
-            s._add_pc(cond)
+            s._add_pc(cond, True); s.cur_model = tm
             return True
         if t_ok:
             s.trail.append((True, [])); s.pos += 1
-            s._add_pc(cond)
+            s._add_pc(cond, True); s.cur_model = tm
             return True
         if f_ok:
             s.trail.append((False, [])); s.pos += 1
-            s._add_pc(z3.Not(cond))
+            s._add_pc(z3.Not(cond), True); s.cur_model = fm
             return False
         raise Infeasible()
 
@@ -276,9 +315,14 @@ class Engine:
             return
         if cond is False:
             raise Infeasible()
+        ms = s._model_says(cond) if not isinstance(cond, bool) else None
+        if ms is True:
+            s._add_pc(cond, True)
+            return
         s._add_pc(cond)
         if not s._sat():
             raise Infeasible()
+        s.cur_model = s._last_model
 
     def feasible(s, cond):
         if isinstance(cond, bool):
@@ -617,7 +661,11 @@ class Engine:
                 v = ref.get()
                 if isinstance(v, RawBox):
                     return v if v.v is None else v.v
-                if isinstance(v, (Agg, Closure)):
+                if type(v).__name__ == "VariantView":
+                    if (v.k, i) not in v.co.vfields:
+                        raise Unmodelled("read of unset coroutine field variant#%d.%d" % (v.k, i))
+                    return v.co.vfields[(v.k, i)]
+                if isinstance(v, (Agg, Closure)) or type(v).__name__ == "Coroutine":
                     if i >= len(v.fields):
                         raise Unmodelled("field %d of %r" % (i, v))
                     return v.fields[i]
@@ -629,7 +677,9 @@ class Engine:
                 v = ref.get()
                 if isinstance(v, RawBox):
                     v.v = x; return
-                if isinstance(v, (Agg, Closure)):
+                if type(v).__name__ == "VariantView":
+                    v.co.vfields[(v.k, i)] = x; return
+                if isinstance(v, (Agg, Closure)) or type(v).__name__ == "Coroutine":
                     v.fields[i] = x; return
                 raise Unmodelled("field write .%d of %s" % (i, type(v).__name__))
             return Ref(get, set_, "field%d" % i)
@@ -639,7 +689,15 @@ class Engine:
                 raise Unmodelled("downcast of %r as %s" % (v, p[1]))
             return ref
         if k == "downcast_idx":
-            return ref
+            import models
+            vi = p[1]
+
+            def vget():
+                v = ref.get()
+                if isinstance(v, models.Coroutine):
+                    return models.VariantView(v, vi)
+                return v
+            return Ref(vget, None, "variant#%d" % vi)
         if k in ("index", "constindex"):
             def idx():
                 v = ref.get()
@@ -756,7 +814,7 @@ class Engine:
             if nm in s.fns and s.fns[nm].is_const:
                 return s.call_fn(s.fns[nm], []), s.fns[nm].ret
             for k, f in s.fns.items():
-                if f.is_const and k.endswith("::" + segs[-1]):
+                if f.is_const and (k.endswith("::" + segs[-1]) or k == segs[-1]):
                     return s.call_fn(f, []), f.ret
             return FnItem(nm), "fn"
         raise Unmodelled("constant " + t)
@@ -905,7 +963,7 @@ class Engine:
                 for part in split_top(m.group(3)):
                     k, v = part.split(":", 1)
                     caps.append((k.strip(), s.parse_operand(v)))
-            return ("closure", m.group(2), caps)
+            return ("coroutine" if m.group(1) == "coroutine" else "closure", re.sub(r" \(#\d+\)$", "", m.group(2)), caps)
         m = re.match(r"\{async (?:fn body|block|closure body)[^@]*@([^}]*)\}(?: \{(.*)\})?$", t, re.S)
         if m:
             caps = []
@@ -1000,7 +1058,15 @@ class Engine:
             return Closure(rv[1], [s.eval_operand(frame, o) for _, o in rv[2]], [n for n, _ in rv[2]])
         if k == "coroutine":
             import models
-            return models.Coroutine(rv[1], [s.eval_operand(frame, o) for _, o in rv[2]], [n for n, _ in rv[2]])
+            co = models.Coroutine(rv[1], [s.eval_operand(frame, o) for _, o in rv[2]], [n for n, _ in rv[2]])
+            co.poll_fn = frame.fn.name + "::{closure#0}"
+            if co.poll_fn not in s.fns:
+                c = [n for n in s.fns if n.startswith(frame.fn.name + "::{closure#") and n.count("{closure#") == frame.fn.name.count("{closure#") + 1
+                     and s.fns[n].args and "Pin<&mut" in s.fns[n].args[0][1]]
+                if len(c) != 1:
+                    raise Unmodelled("poll function of the coroutine built in %s" % frame.fn.name)
+                co.poll_fn = c[0]
+            return co
         if k == "struct":
             name = strip_generics(rv[1])
             vals = {n: s.eval_operand(frame, o) for n, o in rv[2]}
@@ -1076,6 +1142,10 @@ class Engine:
 
     # ------------------------------------------------------------------ execution
     def call_fn(s, fn, args, tparams=None):
+        ov = s.overrides.get(fn.name)
+        if ov is not None:
+            s.stats.models_used["override:" + fn.name.split("::")[-1]] = 1
+            return ov(s, args)
         s.stats.fns_executed[fn.name] = s.stats.fns_executed.get(fn.name, 0) + 1
         frame = Frame(fn)
         if tparams:
@@ -1164,7 +1234,11 @@ class Engine:
         if m:
             return ("yield", s.parse_operand(m.group(2)), m.group(3))
         # call terminators
-        m = re.match(r"(?:(.*?) = )?(.*)\) -> (\[return: (bb\d+).*|unwind.*|bb\d+)$", st, re.S)
+        m = re.match(r"(.*)\) -> (\[return: (bb\d+).*|unwind.*|bb\d+)$", st, re.S)
+        if m:
+            k = _top_assign(m.group(1))
+            dest0, call0 = (m.group(1)[:k], m.group(1)[k + 3:]) if k is not None else (None, m.group(1))
+            m = _CallM(dest0, call0, m.group(3))
         if m and "(" in m.group(2) and not m.group(2).lstrip().startswith(("move ", "copy ", "const ", "&")):
             dest = m.group(1)
             call = m.group(2)
@@ -1185,9 +1259,9 @@ class Engine:
             callee, args = call[:pos].strip(), call[pos + 1:]
             ops = [s.parse_operand(a) for a in split_top(args)] if args.strip() else []
             return ("call", s.parse_place(dest) if dest else None, callee, ops, m.group(4))
-        m = re.match(r"(.*?) = (.*)$", st, re.S)
-        if m:
-            return ("assign", s.parse_place(m.group(1)), s.parse_rvalue(m.group(2)))
+        k = _top_assign(st)
+        if k is not None:
+            return ("assign", s.parse_place(st[:k]), s.parse_rvalue(st[k + 3:]))
         raise Unmodelled("statement " + st)
 
     def exec_stmt(s, frame, ast, text):
@@ -1512,6 +1586,39 @@ class Engine:
         else:
             first = clo
         return s.call_fn(fn, [first] + list(args))
+
+
+class _CallM:
+    def __init__(s, dest, call, ret):
+        s.g = {1: dest, 2: call, 4: ret}
+
+    def group(s, i):
+        return s.g[i]
+
+
+def _top_assign(st):
+    """index of the first ` = ` outside every bracket (type annotations inside places may
+    contain `Output = ..`)"""
+    d = 0
+    i, n = 0, len(st)
+    while i < n:
+        c = st[i]
+        if c == '"':
+            j = i + 1
+            while j < n and st[j] != '"':
+                j += 2 if st[j] == "\\" else 1
+            i = j + 1
+            continue
+        if c in "([{<":
+            d += 1
+        elif c in ")]}":
+            d -= 1
+        elif c == ">" and i > 0 and st[i - 1] not in "-=":
+            d -= 1
+        elif d == 0 and st.startswith(" = ", i):
+            return i
+        i += 1
+    return None
 
 
 def _match_open(t, o, c):
